@@ -45,6 +45,8 @@ def classes_of(case):
                     cl.add("overshoot" if r[3] > lengths[r[1]] else "short")
     if len(present) < len(lengths):
         cl.add("subtexel_scaffold_absent")
+        if any(n not in present and sum(1 for r in rows if r[0] == "F") > 1 for n, rows in case["input"]):
+            cl.add("absent_scaffold_with_several_contigs")
     if any(r[0] == "F" and r[4] < 0 for _n, rows in case["input"] for r in rows):
         cl.add("reverse_contigs")
     if t >= 100:
@@ -159,6 +161,26 @@ def body_cli(case, rec):
 def cases(draw, painted=False, small=False):
     t = draw(gen.texel())
     inp = draw(gen.input_assembly(t, last_contig_min=math.ceil(t), max_scaffolds=4 if small else 6, max_contigs=6 if small else 10))
+    # scaffolds shorter than a texel (several tiny contigs, abutting or separated by 1-bp gaps): absent from
+    # the map or presented as one (ceil-rounded) texel; the last-contig precondition concerns presented scaffolds
+    if t >= 3 and not painted:
+        fasta_shaped = inp[0][1][0][1] == inp[0][0]
+        for k in range(draw(st.integers(0, 2))):
+            budget = int(t) - 1
+            rows, pos, n = [], 1, 0
+            name = f"tiny_{k + 1}"
+            while budget > 0 and n < 4:
+                ln = draw(st.integers(1, budget))
+                budget -= ln
+                if rows and budget > 0 and (fasta_shaped or draw(st.booleans())):
+                    rows.append(["G", 1, "scaffold"])
+                    budget -= 1
+                    pos += 1
+                n += 1
+                rows.append(["F", name, pos, pos + ln - 1, 1] if fasta_shaped else ["F", f"t{k}_{n}", 1, ln, draw(st.sampled_from([1, -1]))])
+                pos += ln
+            if rows:
+                inp.append([name, rows])
     m = draw(gen.model_map(inp, t, cut=False, identity=True, painted=painted))
     prefix = draw(st.sampled_from(["SUPER_", "SUPER_", "CHR", "chr_", "LG"]))
     return {"t": gen.texel_str(t), "input": inp, "map": m, "prefix": prefix}
